@@ -31,6 +31,16 @@ Theorem C11_precedence_order : prec_unplug < prec_plugin /\ prec_plugin < prec_r
 Proof. exact prec_order. Qed.
 Print Assumptions C11_precedence_order.
 
+(* it is a strict weak order (irreflexive, asymmetric, transitive, negation transitive), which is
+   all that heapq needs *)
+Theorem C11_key_strict_weak_order :
+  (forall x, item_lt x x = false) /\
+  (forall x y, item_lt x y = true -> item_lt y x = false) /\
+  (forall x y z, item_lt x y = true -> item_lt y z = true -> item_lt x z = true) /\
+  (forall x y z, item_lt y x = false -> item_lt z y = false -> item_lt z x = false).
+Proof. exact item_lt_strict_weak. Qed.
+Print Assumptions C11_key_strict_weak_order.
+
 (* `le_item a b` (used for "non-decreasing" below) is "not b < a", i.e. (ts a, prec a) <= (ts b, prec b) *)
 Theorem C11_le_item_def : forall a b : item,
   le_item a b <-> item_ts a < item_ts b \/ (item_ts a = item_ts b /\ item_prec a <= item_prec b).
@@ -102,6 +112,13 @@ Theorem C11_pops_sorted : forall q ops, reachable q -> Forall no_insert ops ->
   (forall x y, In x (returned rs) -> In y (q_queue q') -> le_item x y).
 Proof. exact pops_sorted. Qed.
 Print Assumptions C11_pops_sorted.
+
+(* in particular, draining a reachable queue with get_event sorts the pending multiset *)
+Theorem C11_drain_sorted : forall q, reachable q ->
+  let '(q', rs) := run q (repeat OGet (length (q_queue q))) in
+  q_queue q' = [] /\ Permutation (returned rs) (q_queue q) /\ StronglySorted le_item (returned rs).
+Proof. exact drain_sorted. Qed.
+Print Assumptions C11_drain_sorted.
 
 (* within one timestamp: unplug events come out before plug-in events before recompute events *)
 Theorem C11_class_order : forall ts i j k,
